@@ -8,7 +8,8 @@ HERE="$(cd "$(dirname "$0")" && pwd)"
 for d in /verif/seeded_preserving/*/; do
   id="$(basename "$d")"
   "$HERE/scratch.sh" reset "$S"
-  git -C "$S/repo" apply "$d/patch.diff" 2>/dev/null || { "$HERE/scratch.sh" reset "$S"; git -C "$S/repo" apply --3way "$d/patch.diff" >/dev/null 2>&1; } || { echo "$id: patch does not apply to the current HEAD"; "$HERE/scratch.sh" reset "$S"; continue; }
+  # (patch_rebased.diff: the same change re-made by hand where a later fix commit rewrote the very lines)
+  git -C "$S/repo" apply "$d/patch.diff" 2>/dev/null || { [ -f "$d/patch_rebased.diff" ] && git -C "$S/repo" apply "$d/patch_rebased.diff" 2>/dev/null; } || { "$HERE/scratch.sh" reset "$S"; git -C "$S/repo" apply --3way "$d/patch.diff" >/dev/null 2>&1; } || { echo "$id: patch does not apply to the current HEAD"; "$HERE/scratch.sh" reset "$S"; continue; }
   RES=""
   for p in $(seq -f 'C%02g' 1 20); do
     "$HERE/scratch.sh" check "$S" "$p" "$TIER" >"$S/last.log" 2>&1; rc=$?
